@@ -252,6 +252,10 @@ static void emit(block_t &b, const Stmt &s, const std::map<std::string, var_t> &
     std::vector<crab::variable_or_constant<number_t, varname_t>> args;
     for (size_t i = 0; i < s.v.size(); i++)
       args.push_back(crab::variable_or_constant<number_t, varname_t>(V(i)));
+    // trailing numeric arguments (add_tag(rgn, ref, TAG))
+    for (size_t i = 0; i < s.n.size(); i++)
+      args.push_back(crab::variable_or_constant<number_t, varname_t>(
+          N(i), crab::variable_type(crab::INT_TYPE, 32)));
     b.intrinsic(s.k, outs, args);
     break;
   }
